@@ -217,10 +217,12 @@ impl Model for M {
     }
     next.push(Ev::Cleanup);
     // The digest is the real DB's content plus the model's parked sets and the advance budget.
+    // (the model's own state is part of the key: if the implementation wrongly stays put on an event, the two
+    // histories must not be merged, or the discrepancy is never explored further)
     let digest = format!(
-      "{} | parked={:?} | nadv={}",
+      "{} | model={:?} | nadv={}",
       sim.digest(),
-      mp.iter().map(|m| (m.parked.clone(), m.lease)).collect::<Vec<_>>(),
+      mp.iter().map(|m| (m.known, m.lease, (now - m.last).min(61_000), m.visible.clone(), m.parked.clone())).collect::<Vec<_>>(),
       nadv
     );
     Outcome { digest, violation, next, obs, comparisons }
